@@ -65,7 +65,7 @@ def generate(streams: Streams, tier: str, index: int) -> dict:
         # of an emulsion whose data was linked
         s["_w"] = 1  # placeholder removed below
         s["via"] = rng.choice(["ctor", "ctor", "ctor", "from_volume", "set_volume", "set_radius",
-                               "pickled", "linked"])
+                               "pickled", "linked", "refined", "from_file"])
         drops.append(s)
     if all(d["radius"] == 0 for d in drops):
         drops[0]["radius"] = 1.0
@@ -140,6 +140,21 @@ def _make(s):
         em = droplets.Emulsion([d])
         em.get_linked_data()
         d = em[0]
+    elif via == "refined":
+        # as handed back by the library's own refinement (changes the parameters slightly;
+        # all references are taken from the live object afterwards)
+        # (only diffuse droplets: refinement promotes a spherical droplet to a diffuse one, and
+        # merging droplets of two classes is outside the statement)
+        if type(d).__name__ == "DiffuseDroplet":
+            d = scenes.refined_droplet(d)
+    elif via == "from_file":
+        import droplets
+        from simkit import simfs
+
+        with simfs.SimFS():
+            path = f"{simfs.ROOT}/c11_droplet.h5"
+            droplets.Emulsion([d]).to_file(path)
+            d = droplets.Emulsion.from_file(path)[0]
     return d
 
 
